@@ -44,7 +44,9 @@ def wfMember (m : Member) : Bool :=
 /-- what iteration must return for member `m` -/
 structure View where
   name : Bytes
-  timestamp ownerID groupID : Int
+  timestamp : Int
+  ownerID : Int
+  groupID : Int
   mode : Bytes
   size : Int
   data : Bytes
